@@ -35,6 +35,47 @@ impl Violation {
     }
 }
 
+
+/// The violations of a report. A monitor that goes wrong on a broken tree can raise one violation per cell of a
+/// 60 000-generator input, each carrying a copy of that input. The list is bounded by the MEMORY it holds, not by a count
+/// (a count would let many known findings on small inputs crowd out a new violation): records are kept while the inputs
+/// they carry sum to at most `CAP_POINTS` generators; beyond that only the first record of every new signature is kept and
+/// the rest are counted.
+#[derive(Default, Clone, Debug)]
+pub struct VList {
+    pub items: Vec<Violation>,
+    pub dropped: u64,
+    points_held: usize,
+}
+
+impl VList {
+    pub const CAP_POINTS: usize = 3_000_000;
+    pub fn push(&mut self, v: Violation) {
+        let n = v.case.as_ref().map_or(1, |c| c.pts.len().max(1));
+        if self.points_held + n <= Self::CAP_POINTS || !self.items.iter().any(|x| x.signature == v.signature) {
+            self.points_held += n;
+            self.items.push(v);
+        } else {
+            self.dropped += 1;
+        }
+    }
+}
+
+impl std::ops::Deref for VList {
+    type Target = [Violation];
+    fn deref(&self) -> &[Violation] {
+        &self.items
+    }
+}
+
+impl<'a> IntoIterator for &'a VList {
+    type Item = &'a Violation;
+    type IntoIter = std::slice::Iter<'a, Violation>;
+    fn into_iter(self) -> Self::IntoIter {
+        self.items.iter()
+    }
+}
+
 #[derive(Clone, Debug)]
 pub struct KnownFinding {
     pub property: String,
@@ -103,7 +144,7 @@ pub struct Report {
     pub counters: BTreeMap<String, u64>,
     pub maxima: BTreeMap<String, f64>,
     pub maxima_at: BTreeMap<String, String>,
-    pub violations: Vec<Violation>,
+    pub violations: VList,
     pub known_hits: Vec<(String, Violation)>,
     pub inconclusive: u64,
     pub inconclusive_notes: Vec<String>,
@@ -127,7 +168,7 @@ impl Report {
             counters: BTreeMap::new(),
             maxima: BTreeMap::new(),
             maxima_at: BTreeMap::new(),
-            violations: vec![],
+            violations: VList::default(),
             known_hits: vec![],
             inconclusive: 0,
             inconclusive_notes: vec![],
@@ -186,7 +227,10 @@ impl Report {
             }
             self.max(&k, v);
         }
-        self.violations.extend(o.violations);
+        self.violations.dropped += o.violations.dropped;
+        for v in o.violations.items {
+            self.violations.push(v);
+        }
         self.inconclusive += o.inconclusive;
         for n in o.inconclusive_notes {
             if self.inconclusive_notes.len() < 10 {
@@ -211,7 +255,11 @@ impl Report {
         let replay_dir = verif_dir.join("replay");
         let _ = std::fs::create_dir_all(&replay_dir);
         let mut new_violations = vec![];
-        let vs = std::mem::take(&mut self.violations);
+        let dropped = self.violations.dropped;
+        if dropped > 0 {
+            println!("  note: {dropped} further violation records were dropped in memory (the inputs carried by the kept ones already sum to {} generators)", VList::CAP_POINTS);
+        }
+        let vs = std::mem::take(&mut self.violations).items;
         for v in vs {
             if let Some(k) = known.matches(&v) {
                 self.known_hits.push((k.what.clone(), v));
